@@ -7,7 +7,7 @@
      dup_at / bad_at  : src = pre ++ (o,v) :: post, pre is fine, (o,v) is the first duplicate / first refused pair
      accepted o src   : parser results of the occurrences of o in src, in order (parser applied to the implicit
                         value where the string is empty and the option has an implicit value)                       *)
-Require Import V.Lib.Base V.Gen.Consts_C15 V.C15.Model V.C15.Spec V.C15.Proofs V.C15.Proofs2 V.C15.Proofs3 V.C15.Proofs4 V.C15.Proofs5.
+Require Import V.Lib.Base V.Gen.Consts_C15 V.C15.Model V.C15.Spec V.C15.Proofs V.C15.Proofs2 V.C15.Proofs3 V.C15.Proofs4 V.C15.Proofs5 V.C15.Proofs6.
 Local Open Scope Z_scope.
 
 (* no exception  <->  the source has neither a duplicate nor a refused pair *)
@@ -590,4 +590,58 @@ Example c15_ex_notifier_cases :
   run_case [1; 17; 1; 0; 0; 1; 0; 2; 0; 3; 49; 44; 50; 0; 1; 57] = [0; 0; 1; 0; 1; 15; 1; 0; 0; 1; 3; 1; 2; 9; 2; 1; 2; 3; 1; 2; 9] /\
   run_case [2; 10; 0; 0; 1; 1; 57; 6; 0; 0; 0; 1; 0; 2; 0; 1; 53; 1; 2; 33; 120] =
     [1 + ERR_INVALID_VALUE; 1; 2; 33; 120; 0; 1; 0; 1; 7; 1; 1; 0; 0; 0; 1; 5; 0; 0; 0].
+Proof. vm_compute. repeat split; reflexivity. Qed.
+
+(* ---- sources filled BY NAME: ParsedValues::add(const std::string& name, const std::string& value) = tryFind(name.c_str(), find_name) ----
+   [key_of id k]: k is a key under which the context's index holds option id - its long name, or "-a" for its alias character a.
+   A by-name pair (key, v) of a source over a context of n options denotes the pair (id, v) of the FIRST option (declaration order; the keys
+   of a context are pairwise different, so: of THE option) one of whose keys EQUALS the key read as a C string; if the key equals no key of
+   the context - a strict prefix of a name (unambiguous or not), an extension of a name, the bare alias character, an unknown or empty key -
+   the pair denotes nothing: it vanishes from the source (nothing is thrown, no option counts as mentioned). *)
+Theorem c15_by_name_exact_only :
+  forall (n : nat) (key v : str),
+    match resolve n key with
+    | Some id => denote_pair n (inr (key, v)) = [(id, v)] /\ (id < n)%nat /\ key_of id (cstr key) /\
+                 (forall j, (j < id)%nat -> ~ key_of j (cstr key))
+    | None => denote_pair n (inr (key, v)) = [] /\ forall id, (id < n)%nat -> ~ key_of id (cstr key)
+    end.
+Proof. exact by_name_exact_only. Qed.
+Print Assumptions c15_by_name_exact_only.
+
+Theorem c15_by_name_key_denotes :
+  forall (n : nat) (key v : str) (id : nat),
+    (id < n)%nat -> key_of id (cstr key) -> (forall j, (j < id)%nat -> ~ key_of j (cstr key)) ->
+    denote_pair n (inr (key, v)) = [(id, v)].
+Proof. exact by_name_key_denotes. Qed.
+Print Assumptions c15_by_name_key_denotes.
+
+(* the source is decoded pair by pair, so a by-name pair whose key is no key of the context can be deleted from the source: every theorem
+   above about [assign_source .. src] then speaks about the source WITHOUT that pair *)
+Theorem c15_by_name_other_keys_vanish :
+  forall (n : nat) (a b : list npair) (key v : str),
+    (forall id, (id < n)%nat -> ~ key_of id (cstr key)) ->
+    denote_src n (a ++ inr (key, v) :: b) = denote_src n (a ++ b).
+Proof. intros n a b key v. apply denote_src_drop. Qed.
+Print Assumptions c15_by_name_other_keys_vanish.
+
+(* non-vacuity.  The names of the harness (limit/-l, level, length, lim/-m, o4, o5, ..): the first 64 names are pairwise different and no name
+   is an alias key; in a context of 5 options "lim" is option 3 (an exact name although a prefix of "limit"), "o4" option 4, "o5" nothing,
+   "lim\0x" is read as "lim", "-m" is the alias key of option 3, the bare "m" is nothing.
+   Through run_case: [limit:int level:int length:vector<int>+composing lim:int]
+     by-name source (lim=1 limi=2 le=3 len=4 limitx=5 l=6 ''=7 -l=8 length=9): no error, 3 names recorded: limit=8 (through its alias key),
+       length=[9], lim=1; level untouched (-777) and NOT recorded - the strict prefixes (unique: limi, len; ambiguous: le, l), the extension and
+       the empty key vanished;
+     then (by name limit=5; by pointer level=6; by name len=7): limit keeps 8 (first source wins), level=6, length still [9]. *)
+Example c15_ex_by_name :
+  forallb (fun i => forallb (fun j => Bool.eqb (is_key i (opt_name j)) (Nat.eqb i j)) (seq 0 64)) (seq 0 64) = true /\
+  map (resolve 5) [[108;105;109]; [111;52]; [111;53]; [108;105;109;0;120]; [45; 109]; [109]] =
+    [Some 3%nat; Some 4%nat; None; Some 3%nat; Some 3%nat; None] /\
+  run_case [4; 2; 0; 0; 0; 2; 0; 0; 0; 4; 1; 0; 0; 2; 0; 0; 0; 7; 0; 9; 1; 3;
+        108; 105; 109; 1; 49; 1; 4; 108; 105; 109; 105; 1; 50; 1; 2; 108;
+        101; 1; 51; 1; 3; 108; 101; 110; 1; 52; 1; 6; 108; 105; 109; 105;
+        116; 120; 1; 53; 1; 1; 108; 1; 54; 1; 0; 1; 55; 1; 2; 45; 108; 1; 56;
+        1; 6; 108; 101; 110; 103; 116; 104; 1; 57; 7; 0; 3; 1; 5; 108; 105;
+        109; 105; 116; 1; 53; 0; 1; 1; 54; 1; 3; 108; 101; 110; 1; 55] =
+    [0; 0; 3; 0; 1; 1; 8; 0; 0; 1; -777; 0; 1; 1; 9; 0; 1; 1; 1;
+     0; 0; 4; 0; 1; 1; 8; 0; 1; 1; 6; 0; 1; 1; 9; 0; 1; 1; 1].
 Proof. vm_compute. repeat split; reflexivity. Qed.
